@@ -442,3 +442,179 @@ theorem ghost_inv (w : World) (ops : List Op) (j : Nat) (h0 : queueOf w j = []) 
   exact this
 
 end OsmoVerif.World
+/-! ### consequences of `ExactlyOnce` -/
+namespace OsmoVerif.Spec.TxQueue
+variable {μ : Type} {fnOf : μ → Option Int} {log : List (Event μ)} {queued : List Nat}
+
+theorem ExactlyOnce.nodup_all (h : ExactlyOnce fnOf log queued) : (outIds log ++ queued).Nodup :=
+  h.accounted.nodup_iff.mpr h.ids_distinct
+
+/-- at most one outcome event per id -/
+theorem ExactlyOnce.outcome_unique (h : ExactlyOnce fnOf log queued) : (outIds log).Nodup :=
+  (List.nodup_append.mp h.nodup_all).1
+
+theorem ExactlyOnce.queued_nodup (h : ExactlyOnce fnOf log queued) : queued.Nodup :=
+  (List.nodup_append.mp h.nodup_all).2.1
+
+/-- a queued id has no outcome -/
+theorem ExactlyOnce.queued_no_outcome (h : ExactlyOnce fnOf log queued) {id : Nat} (hq : id ∈ queued) :
+    id ∉ outIds log := fun ho => (List.nodup_append.mp h.nodup_all).2.2 id ho id hq rfl
+
+/-- nothing is lost, nothing appears from nowhere -/
+theorem ExactlyOnce.accounted_iff (h : ExactlyOnce fnOf log queued) (id : Nat) :
+    id ∈ accIds log ↔ (id ∈ outIds log ∨ id ∈ queued) := by
+  rw [← h.accounted.mem_iff, List.mem_append]
+end OsmoVerif.Spec.TxQueue
+namespace OsmoVerif.World
+open OsmoVerif OsmoVerif.Spec.TxQueue
+
+/-! ### the ghost of `ops ++ [op]` -/
+
+theorem replayFrom_append (j : Nat) : ∀ (ops ops2 : List Op) (pos : Nat) (w : World) (g : Ghost),
+    replayFrom j pos w (ops ++ ops2) g =
+      replayFrom j (pos + ops.length) (run w ops).1 ops2 (replayFrom j pos w ops g) := by
+  intro ops
+  induction ops with
+  | nil => intro ops2 pos w g; simp [run, replayFrom]
+  | cons op ops ih =>
+    intro ops2 pos w g
+    simp only [List.cons_append, replayFrom, run, List.length_cons]
+    rw [ih]
+    congr 1
+    omega
+
+theorem run_append (w : World) (ops ops2 : List Op) :
+    (run w (ops ++ ops2)).1 = (run (run w ops).1 ops2).1 := by
+  induction ops generalizing w with
+  | nil => rfl
+  | cons op ops ih => simp only [List.cons_append, run]; exact ih _
+
+/-- the ghost after one more operation -/
+theorem ghost_snoc (w : World) (ops : List Op) (op : Op) (j : Nat) :
+    ghost w (ops ++ [op]) j =
+      ghostStep j ops.length (run w ops).1 op (step (run w ops).1 op).world (ghost w ops j) := by
+  unfold ghost
+  rw [replayFrom_append]
+  simp [replayFrom]
+
+theorem run_snoc (w : World) (ops : List Op) (op : Op) :
+    (run w (ops ++ [op])).1 = (step (run w ops).1 op).world := by
+  rw [run_append]; rfl
+
+/-! ### a completed tick, uniformly -/
+
+theorem tick_complete_queue {w : World} {fn : Nat} (hr : w.clkRunning = true) (hs : w.clkSrc = some fn)
+    (hx : (tick w).exc = none) (j : Nat) :
+    queueOf (tick w).world j = tickedQueue fn w j ∧
+    (tick w).world.clkSrc = some ((fn + 1) % Gen.World.hyperframe) := by
+  obtain ⟨js1, js2, hjs, -, h2, h3, -, h5, -⟩ := tick_spec hr hs
+  obtain ⟨rfl, hc⟩ := h5 hx
+  refine ⟨?_, hc⟩
+  by_cases hj : j ∈ js1
+  · exact h3 j hj
+  · rw [h2 j hj]
+    rw [List.append_nil] at hjs
+    rw [← hjs, List.mem_range] at hj
+    unfold tickedQueue runningOf
+    rw [List.getElem?_eq_none (Nat.le_of_not_lt hj)]
+    rfl
+
+theorem tick_nothing_due {fn : Nat} {ids : List Nat} {q : List Trxd.TxMsg} (hl : ids.length = q.length)
+    (h : waitPart fn q = q) : tickEvents fn (ids.zip q) = [] ∧ tickIds fn (ids.zip q) = ids := by
+  unfold waitPart at h
+  rw [List.filter_eq_self] at h
+  have hall : ∀ p ∈ ids.zip q, classify fn p.2 = .wait := by
+    intro p hp
+    have := h p.2 (List.of_mem_zip hp).2
+    simpa using this
+  constructor
+  · unfold tickEvents
+    rw [List.filter_eq_nil_iff.mpr, List.filter_eq_nil_iff.mpr]
+    · rfl
+    · intro p hp; rw [hall p hp]; decide
+    · intro p hp; rw [hall p hp]; decide
+  · unfold tickIds
+    rw [List.filter_eq_self.mpr]
+    · exact List.map_fst_zip (Nat.le_of_eq hl)
+    · intro p hp; rw [hall p hp]; rfl
+
+/-- the ghost step of a tick that reaches the running transceiver `j` -/
+theorem ghostStep_tick_running {j pos : Nat} {w : World} {g : Ghost} {fn : Nat}
+    (hl : g.ids.length = (queueOf w j).length) (hs : w.clkSrc = some fn)
+    (hq : queueOf (step w .tick).world j = waitPart fn (queueOf w j)) :
+    ghostStep j pos w .tick (step w .tick).world g =
+      ⟨tickIds fn (g.ids.zip (queueOf w j)), g.log ++ tickEvents fn (g.ids.zip (queueOf w j))⟩ := by
+  simp only [ghostStep, hs, hq]
+  split
+  · next he =>
+    obtain ⟨h1, h2⟩ := tick_nothing_due hl he
+    rw [h1, h2, List.append_nil]
+  · rfl
+
+/-! ### provenance of events -/
+
+/-- where the events of one operation come from -/
+theorem ghostStep_mem {j pos : Nat} {w : World} {op : Op} {g : Ghost} {e : Ev}
+    (h : e ∈ (ghostStep j pos w op (step w op).world g).log) :
+    e ∈ g.log ∨
+    (∃ d m, op = .data j d ∧ Accepts w j d m ∧ e = Event.accepted pos m) ∨
+    (∃ fn p, op = .tick ∧ w.clkRunning = true ∧ w.clkSrc = some fn ∧ runningOf w j = true ∧
+        p ∈ g.ids.zip (queueOf w j) ∧
+        ((classify fn p.2 = .emit ∧ e = Event.emitted p.1 fn) ∨
+         (classify fn p.2 = .stale ∧ e = Event.stale p.1 fn))) ∨
+    (∃ i sp d id, op = .ctrl i sp d ∧ id ∈ g.ids ∧ e = Event.cleared id ∧
+        queueOf (step w op).world j = [] ∧ runningOf (step w op).world j = false) := by
+  cases op with
+  | data i d =>
+    simp only [ghostStep, step] at h
+    rcases (recvDataMsg_queue w i d j).2 with ⟨hq, -⟩ | ⟨hji, msg, hacc, hq⟩
+    · rw [hq, List.drop_length] at h; exact .inl h
+    · rw [hq, List.drop_left] at h
+      simp only [List.mem_append, List.mem_singleton] at h
+      rcases h with h | h
+      · exact .inl h
+      · subst hji; exact .inr (.inl ⟨d, msg, rfl, hacc, h⟩)
+  | ctrl i sp d =>
+    simp only [ghostStep] at h
+    split at h
+    next hc =>
+      simp only [List.mem_append, List.mem_map] at h
+      rcases h with h | ⟨id, hid, rfl⟩
+      · exact .inl h
+      · rcases (step_ctrl_effect w i sp d).cases j with ⟨hq, -⟩ | ⟨hq, -⟩ | ⟨hq, hr⟩
+        · exact absurd (hq ▸ hc.1) hc.2
+        · exact absurd (hq ▸ hc.1) hc.2
+        · exact .inr (.inr (.inr ⟨i, sp, d, id, rfl, hid, rfl, hq, hr⟩))
+    next => exact .inl h
+  | tick =>
+    simp only [ghostStep] at h
+    rcases step_tick_queue w j with hq | ⟨fn, hr, hs, hrun, hq⟩
+    · rw [hq] at h
+      cases hcs : w.clkSrc with
+      | none => rw [hcs] at h; exact .inl h
+      | some fn => rw [hcs] at h; simp only [if_true] at h; exact .inl h
+    · rw [hs] at h
+      simp only [] at h
+      split at h
+      · exact .inl h
+      · simp only [List.mem_append] at h
+        rcases h with h | h
+        · exact .inl h
+        · right; right; left
+          rcases mem_tickEvents h with ⟨p, hp, hc, he⟩ | ⟨p, hp, hc, he⟩
+          · exact ⟨fn, p, rfl, hr, hs, hrun, hp, .inl ⟨hc, he⟩⟩
+          · exact ⟨fn, p, rfl, hr, hs, hrun, hp, .inr ⟨hc, he⟩⟩
+  | jump fn => simp only [ghostStep] at h; exact .inl h
+
+/-- the log only grows -/
+theorem ghostStep_log_mono {j pos : Nat} {w w' : World} {op : Op} {g : Ghost} {e : Ev} (h : e ∈ g.log) :
+    e ∈ (ghostStep j pos w op w' g).log := by
+  cases op <;> simp only [ghostStep]
+  · split <;> simp [h]
+  · split <;> simp [h]
+  · split
+    · exact h
+    · split <;> simp [h]
+  · exact h
+
+end OsmoVerif.World
